@@ -3,13 +3,21 @@
 import partitura.score as S
 
 
-def build_part(spec, with_end_times=True):
-    """Return (part, {note id: object})."""
+def build_part(spec, with_end_times=True, div_order=None):
+    """Return (part, {note id: object}).
+
+    div_order : optional list of ints; when given, the division changes are applied in the
+    order of these keys (set_quarter_duration documents that calls may come in any order).
+    """
     divs = spec["divs"]
     part = S.Part(spec["id"], part_name=spec.get("name"), quarter_duration=divs[0][1])
     if spec.get("abbr"):
         part.part_abbreviation = spec["abbr"]
-    for t, d in divs[1:]:
+    changes = list(divs[1:])
+    if div_order:
+        keyed = sorted(range(len(changes)), key=lambda i: (div_order[i % len(div_order)], i))
+        changes = [changes[i] for i in keyed]
+    for t, d in changes:
         part.set_quarter_duration(t, d)
     for (s, e, num, name) in spec["measures"]:
         part.add(S.Measure(number=num, name=name), s, e)
